@@ -72,26 +72,20 @@ func openPty() (*ptyWriter, error) {
 
 // finish closes the slave side, waits for the rest of the output and returns everything that was written.
 func (p *ptyWriter) finish() []byte {
-	// closing the last slave descriptor may discard what the master side has not read yet: wait until the output queue is
-	// empty and the collected length has stopped growing
-	deadline := time.Now().Add(5 * time.Second)
-	last, stable := -1, 0
+	// closing the last slave descriptor may discard what the master side has not read yet, and the reading goroutine may not
+	// have been scheduled for a while on a busy machine: write an end marker through the terminal and wait until it has
+	// arrived on the master side; only then close.
+	marker := []byte("\x00<<end-of-pty-output>>\x00")
+	p.slave.Write(marker)
+	deadline := time.Now().Add(30 * time.Second)
 	for time.Now().Before(deadline) {
-		var pending int32
-		ioctl(p.slave.Fd(), syscall.TIOCOUTQ, unsafe.Pointer(&pending))
 		p.mu.Lock()
-		n := p.buf.Len()
+		done := bytes.HasSuffix(p.buf.Bytes(), marker)
 		p.mu.Unlock()
-		if pending == 0 && n == last {
-			stable++
-			if stable >= 3 {
-				break
-			}
-		} else {
-			stable = 0
+		if done {
+			break
 		}
-		last = n
-		time.Sleep(2 * time.Millisecond)
+		time.Sleep(time.Millisecond)
 	}
 	p.slave.Close()
 	select {
@@ -101,7 +95,26 @@ func (p *ptyWriter) finish() []byte {
 	p.master.Close()
 	p.mu.Lock()
 	defer p.mu.Unlock()
-	return append([]byte{}, p.buf.Bytes()...)
+	out := append([]byte{}, p.buf.Bytes()...)
+	if i := bytes.LastIndex(out, marker); i >= 0 {
+		out = append(out[:i], out[i+len(marker):]...)
+	}
+	return out
 }
 
 var _ io.Writer = (*os.File)(nil)
+
+// PtyWriter is the exported face of ptyWriter for checks that hand a terminal to an external process.
+type PtyWriter struct{ p *ptyWriter }
+
+// OpenPty opens a pseudo terminal; File() is its slave side (a terminal), Finish() returns what was written to it.
+func OpenPty() (*PtyWriter, error) {
+	p, err := openPty()
+	if err != nil {
+		return nil, err
+	}
+	return &PtyWriter{p}, nil
+}
+
+func (w *PtyWriter) File() *os.File { return w.p.slave }
+func (w *PtyWriter) Finish() []byte { return w.p.finish() }
